@@ -34,7 +34,30 @@ def main():
     if a.replay:
         with open(a.replay) as f:
             payload = json.load(f)
-        ok = mod.replay(payload)
+        import inspect
+        case = payload.get('case') or {}
+        kind = case.get('check') if isinstance(case, dict) else None
+        try:
+            src = inspect.getsource(mod.replay)
+        except (OSError, TypeError):
+            src = ''
+        if payload.get('kind') == 'failing-input' and kind is not None and ("'%s'" % kind) not in src and ('"%s"' % kind) not in src:
+            # the module has no dedicated replay for this kind of case: run the whole check again (same seed and tier, monitors only) and
+            # see whether a violation with the same signature comes back
+            ctx = fw.Ctx(pid, payload.get('tier', 'quick'), int(payload.get('seed', seed)))
+            try:
+                res = mod.run(ctx)
+                again = [v for v in res.violations if v.sig == payload.get('sig')]
+                if not again and hasattr(mod, 'search'):
+                    ctx.search_mode = True
+                    again = [v for v in mod.search(ctx, []).violations if v.sig == payload.get('sig')]
+            finally:
+                ctx.cleanup()
+            for v in again[:1]:
+                print('again:', v.desc[:600])
+            ok = not again
+        else:
+            ok = mod.replay(payload)
         print('REPLAY %s: %s' % (a.replay, 'property holds on this input' if ok else 'property FAILS on this input'))
         sys.exit(0 if ok else 1)
 
